@@ -25,7 +25,13 @@ def parseFiles (s : String) : Option Fs :=
   (s.splitOn ";").mapM fun f =>
     match f.splitOn "=" with
     | [n, c] => do let n ← bytesOfHex n; let c ← bytesOfHex c; pure (n, some c)
-    | [n] => if n.endsWith "/" then (bytesOfHex (n.dropEnd 1).toString).map fun n => (n, none) else none
+    | [n] =>
+      -- name@target: a symbolic link - an entry of its own, modelled as a plain entry whose content is the target text
+      if (n.splitOn "@").length = 2 then
+        (match n.splitOn "@" with
+         | [a, t] => do let a ← bytesOfHex a; let t ← bytesOfHex t; pure (a, some t)
+         | _ => none)
+      else if n.endsWith "/" then (bytesOfHex (n.dropEnd 1).toString).map fun n => (n, none) else none
     | _ => none
 
 def renderFs (fs : Fs) : String :=
